@@ -148,6 +148,7 @@ def run(chk):
             specs.append({k: 'dirichlet' for k in names})
             specs.append({k: ('dirichlet' if i % 2 == 0 else 'von neumann') for i, k in enumerate(names)})
             specs.append({k: (None if i == 0 else 'von neumann') for i, k in enumerate(names)})
+            specs.append({k: None for k in names})     # no condition on any facet: the boundary term is zero
             if thorough:
                 specs.append({k: (None if i != len(names) - 1 else 'dirichlet') for i, k in enumerate(names)})
                 specs.append({k: ('von neumann' if i % 2 == 0 else 'dirichlet') for i, k in enumerate(names)})
